@@ -40,6 +40,10 @@ Print Assumptions C11_rr4_complete_inverse.
 (* polynomial ratrecon: N == D*P (mod M), deg N <= dk, D <> 0, over every ring with a degree function *)
 Theorem C11_poly_ratrecon_sound : Poly_ratrecon_sound.         Proof. exact poly_ratrecon_sound_full. Qed.
 Print Assumptions C11_poly_ratrecon_sound.
+(* ratreconcheck and the 6-argument ratrecon: a success passed the gcd-degree test, is the pair of ratrecon (possibly times the
+   unit 1/leadcoef D) and still satisfies congruence, degree bound and D <> 0 *)
+Theorem C11_poly_ratreconcheck_sound : Poly_ratreconcheck_sound. Proof. exact poly_ratreconcheck_sound_full. Qed.
+Print Assumptions C11_poly_ratreconcheck_sound.
 (* ... and it terminates within the fuel deg P + deg M + 4 whenever div is a Euclidean quotient (deg (a - (a div b) b) < deg b) *)
 Theorem C11_poly_ratrecon_terminates : Poly_ratrecon_total.   Proof. exact poly_ratrecon_total_full. Qed.
 Print Assumptions C11_poly_ratrecon_terminates.
